@@ -83,6 +83,10 @@ def check_generator(repo: Repo, rep: Report, name: str):
             ys = _yields(a)
             if ys:
                 ny = min(ny + len(ys), 3)
+                if started and cat != "pending" and exempt != "b001" and not set_ok:
+                    # the caller is documented to stop iterating at the first non-Pending response: the
+                    # generator is then never resumed, so a set() placed after this yield never runs
+                    fails.append(("checkpoint", n, st, "a non-Pending (final / failure) result is surfaced while the reactor is still paused: set() only follows the yield, and a caller that stops iterating here never resumes the generator - the association reactor stays paused, so e.g. a later A-RELEASE-RQ from the peer is never answered"))
                 if fail_kind is not None:
                     v = ys[0].value
                     okv = isinstance(v, ast.Tuple) and len(v.elts) == 2 and norm(v.elts[0]) == "Dataset()" and norm(v.elts[1]) == "None"
